@@ -151,7 +151,9 @@ def part_b(chk, asan, quick):
 
     def one(c):
         s, exp = c
-        r = core.run_retry([exe, s], timeout=20)
+        # every third case is checked in a thread whose errno holds a stale ERANGE
+        stale = (sum(ord(ch) for ch in s) % 3 == 0)
+        r = core.run_retry([exe] + (["-E"] if stale else []) + [s], timeout=20)
         return c, r
     n = 0
     for (s, exp), r in core.pmap(one, cases):
